@@ -23,6 +23,8 @@ pub mod c07;
 pub mod c08;
 #[cfg(feature = "sodium")]
 pub mod c12;
+#[cfg(feature = "sodium")]
+pub mod c13;
 
 pub fn dispatch(name: &str, cx: &mut Ctx) -> bool {
     match name {
@@ -44,6 +46,8 @@ pub fn dispatch(name: &str, cx: &mut Ctx) -> bool {
         "c08" => c08::run(cx),
         #[cfg(feature = "sodium")]
         "c12" => c12::run(cx),
+        #[cfg(feature = "sodium")]
+        "c13" => c13::run(cx),
         _ => return false,
     }
     true
